@@ -757,6 +757,34 @@ impl Scripted {
     }
 }
 
+
+/// An honest scripted peer: connects to a listening node, completes preface, noise and the gossip handshake as `key`,
+/// runs a multiplexer and announces the chain's block range; Ok once the node has acknowledged the announcement.
+pub(crate) async fn honest_probe<'a>(
+    ctx: &'a ctx::Ctx,
+    s: &'a scope::Scope<'a, String>,
+    addr: std::net::SocketAddr,
+    key: &'a zksync_consensus_roles::node::SecretKey,
+    node_key: &'a zksync_consensus_roles::node::PublicKey,
+    setup: &'a zksync_consensus_roles::validator::testonly::Setup,
+) -> Result<(), String> {
+    use zksync_consensus_network::verif::{self as hook, Mux, MuxConfig, NoiseTcp};
+    let mut mine = NoiseTcp::preface_connect(ctx, addr, false).await.map_err(|e| format!("preface with the node failed: {e:?}"))?;
+    let pcfg = crate::c12::gossip_cfg(key);
+    hook::gossip::handshake_outbound(ctx, &pcfg, setup.genesis.hash(), &mut mine, node_key).await.map_err(|e| format!("handshake with the node failed: {e}"))?;
+    let table = hook::rpc_table();
+    let push_cap = table.iter().find(|t| t.0 == "push_block_store_state").map(|t| t.1).unwrap();
+    let mut m = Mux::new(MuxConfig::rpc());
+    let push = m.accept(ctx, push_cap, 1, zksync_concurrency::limiter::Rate::INF);
+    s.spawn_bg(async move {
+        let _ = m.run(ctx, mine).await;
+        Ok(())
+    });
+    let peer = Scripted { push, inbox: Arc::default(), acked: Arc::default(), held: Arc::default() };
+    let first = setup.first_block().0;
+    peer.announce(ctx, setup, first, first + setup.blocks.len() as u64 - 1).await
+}
+
 pub fn check_peer(case: &PeerCase, st: &mut Stats) -> Result<(), String> {
     use rand::SeedableRng as _;
     use zksync_consensus_engine::{testonly::in_memory, EngineManager};
